@@ -528,10 +528,15 @@ def gen_c09(rng, tier):
                 # 32-bit unsigned without declared bounds: the whole range, in both directions; a write may carry "ev" too
                 x = rng.choice([0, 1, 255, 65536, 2147483647, 2147483648, 3000000000, 4294967295])
                 ops.append(rng.choice(["P:a:4.14:%s:-", "P:a:4.14:%s:1", "P:a:4.14:%s:0", "L:4.14:%s"]) % sc.num(x))
+            elif r < 0.93:
+                # a signed integer with a range around zero, written in every number notation JSON has
+                txt, x = rng.choice([("-30", -30), ("-90", -90), ("45", 45), ("7.0", 7), ("9e1", 90), ("-3e1", -30), ("0.0", 0), ("6E0", 6)])
+                u = x % (1 << 64)
+                ops.append(rng.choice(["P:a:4.18:%s@%016x@%d:-" % (txt, sc.fbits(x), u), "L:4.18:%s" % sc.num(x)]))
             elif r < 0.95:
                 # value and event subscription in ONE write entry
                 ops.append("P:a:2.9:%s:%s" % (rng.choice(["true", "false"]), rng.choice(["1", "0"])))
-            ids = rng.sample(["2.9", "3.12", "3.10", "4.13", "4.12", "4.14", "1.5", "2.99", "9.1", "3.11", "4.11"], rng.randrange(1, 6))
+            ids = rng.sample(["2.9", "3.12", "3.10", "4.13", "4.12", "4.14", "1.5", "2.99", "9.1", "3.11", "4.11", "4.18"], rng.randrange(1, 6))
             ops.append("G:a:" + ",".join(ids))
             if rng.random() < 0.3:
                 ops.append("A:a")
@@ -542,6 +547,11 @@ def gen_c09(rng, tier):
             big = "y" * rng.choice([700, 1500, 3000])
             ops += ["P:a:4.13:J%s~%s:-" % (json.dumps(big).encode().hex(), big.encode().hex()), "G:a:4.13"]
         mk(cases, "rw", ops, opts="nacc=%d fsz=%d" % (rng.choice([0, 0, 0, 12]), rng.choice([1024, 1024, 300, 100, 37])))
+    ops = ["N:a", "S:a:c0:ok", "V:a:c0:ok"]
+    for txt, x in [("-30", -30), ("7.0", 7), ("9e1", 90), ("-9e1", -90), ("0.0", 0), ("45", 45)]:
+        ops += ["P:a:4.18:%s@%016x@%d:-" % (txt, sc.fbits(x), x % (1 << 64)), "G:a:4.18", "CB"]
+    ops += ["L:4.18:%s" % sc.num(-45), "G:a:4.18", "A:a"]
+    mk(cases, "rw", ops)
     # bridges with two-digit accessory ids: ids whose digits can be split in more than one way (1.19 / 11.9, 1.12 / 11.2, 2.19 / 21.9)
     for i in range(3 if tier == "quick" else 30):
         ops = ["N:a", "S:a:c0:ok", "V:a:c0:ok"]
